@@ -302,8 +302,9 @@ pub fn gen_doc(opts: &SymOpts) -> SymDoc {
                 let nsub = ch("sym.func.nsub", 8);
                 let mut la = addr;
                 for _ in 0..nsub {
-                    match ch("sym.func.sub", 6) {
-                        // a blank line among the sub-lines (the record goes on after it)
+                    match ch("sym.func.sub", if opts.fatal_lines { 6 } else { 5 }) {
+                        // a blank line among the sub-lines: it ends the record, the next sub-line
+                        // is then an error at top level (only where fatal lines are wanted)
                         5 => doc.lines.push(Vec::new()),
                         0 => {
                             // INLINE depth line file origin [addr size]+
@@ -405,7 +406,7 @@ pub fn gen_doc(opts: &SymOpts) -> SymDoc {
                 doc.lines.push(l);
                 let nd = ch("sym.cfi.ndelta", 5);
                 for i in 0..nd {
-                    if chance("sym.cfi.blank_inside", 1, 8) {
+                    if opts.fatal_lines && chance("sym.cfi.blank_inside", 1, 8) {
                         doc.lines.push(Vec::new());
                     }
                     doc.lines.push(join(&[b"STACK CFI", &hex(a0 + 1 + i as u64 * 3), &cfi_rules(ext)]));
